@@ -448,35 +448,43 @@ func ruleF4(c *an.Ctx) {
 	runJoin := c.NeedFunc(pkgCore, "(*Node).runJoin")
 	if doJoin != nil && runJoin != nil {
 		joins := callsTo(doJoin, runJoin)
+		fam := familyOf(p, doJoin, 3)
 		for _, j := range joins {
-			nv := 0
-			for _, v := range callsTo(doJoin, chunkVerify) {
-				nv++
-				ok, why := allFlagOpt(doJoin, j.(ssa.Instruction), v.(ssa.Instruction), func(r an.Rel) bool {
-					return r.Op == token.ILLEGAL && r.Truth && r.X == v.Value()
-				}, true)
-				c.Check("F4", "join-only-if-chunk-outputs-verified@(*Fork).doJoin", v.Pos(), ok,
-					"the join may run only if every chunk's outputs verified: "+why)
+			nv, nr := 0, 0
+			for _, g := range fam {
+				for _, v := range callsTo(g, chunkVerify) {
+					if v.Value() == nil {
+						continue
+					}
+					nv++
+					vv := v.Value()
+					site := allSite{fn: v.Parent(), S: v.(ssa.Instruction), desc: "chunk.verifyOutput", ok: func(r an.Rel) bool {
+						return r.Op == token.ILLEGAL && r.Truth && r.X == ssa.Value(vv)
+					}}
+					ok, why := allChain(p, doJoin, fam, j.(ssa.Instruction), site, 0)
+					c.Check("F4", "join-only-if-chunk-outputs-verified@(*Fork).doJoin", v.Pos(), ok,
+						"the join may run only if every chunk's outputs verified: "+why)
+				}
+				an.Instrs(g, func(in ssa.Instruction) {
+					call, ok := in.(*ssa.Call)
+					if !ok || call.Call.StaticCallee() == nil || call.Call.StaticCallee().Name() != "read" || len(call.Call.Args) < 2 ||
+						!an.IsConst(call.Call.Args[1], p.Const(pkgCore, "OutsFile")) {
+						return
+					}
+					nr++
+					site := allSite{fn: g, S: in, desc: "read(_outs)", ok: func(r an.Rel) bool {
+						if r.Op != token.EQL || !an.IsNil(r.Y) {
+							return false
+						}
+						ex, ok := r.X.(*ssa.Extract)
+						return ok && ex.Tuple == ssa.Value(call) && ex.Index == 1
+					}}
+					ok2, why := allChain(p, doJoin, fam, j.(ssa.Instruction), site, 0)
+					c.Check("F4", "join-only-if-chunk-outs-readable@(*Fork).doJoin", in.Pos(), ok2,
+						"the join may run only if every chunk's _outs could be read: "+why)
+				})
 			}
 			c.Floor("F4", "chunk.verifyOutput calls in doJoin", nv, 1)
-			nr := 0
-			an.Instrs(doJoin, func(in ssa.Instruction) {
-				call, ok := in.(*ssa.Call)
-				if !ok || call.Call.StaticCallee() == nil || call.Call.StaticCallee().Name() != "read" || len(call.Call.Args) < 2 ||
-					!an.IsConst(call.Call.Args[1], p.Const(pkgCore, "OutsFile")) {
-					return
-				}
-				nr++
-				ok2, why := allFlagOpt(doJoin, j.(ssa.Instruction), in, func(r an.Rel) bool {
-					if r.Op != token.EQL || !an.IsNil(r.Y) {
-						return false
-					}
-					ex, ok := r.X.(*ssa.Extract)
-					return ok && ex.Tuple == ssa.Value(call) && ex.Index == 1
-				}, true)
-				c.Check("F4", "join-only-if-chunk-outs-readable@(*Fork).doJoin", in.Pos(), ok2,
-					"the join may run only if every chunk's _outs could be read: "+why)
-			})
 			c.Floor("F4", "chunk _outs reads in doJoin", nr, 1)
 		}
 	}
